@@ -31,14 +31,24 @@ impl FromStr for AST {
     type Err = Box<ParseErr>;
 
     fn from_str(input: &str) -> ParseResult<AST> {
-        let tokens: Vec<Lex> = tokenize(input)
-            .map(|tokens| {
-                tokens
-                    .into_iter()
-                    .filter(|t| !matches!(t.token, Token::Comment(_)))
-                    .collect()
-            })
-            .map_err(ParseErr::from)?;
+        // Comments are dropped. A blank or comment-only line leaves an extra newline token, either
+        // next to the newline of the preceding line or directly after the indent of the next one;
+        // such a newline is dropped as well, so that these lines are insignificant everywhere
+        // (between match arms, before else, between handle cases), not only between statements.
+        let mut tokens: Vec<Lex> = Vec::new();
+        for lex in tokenize(input).map_err(ParseErr::from)? {
+            let redundant = match lex.token {
+                Token::Comment(_) => true,
+                Token::NL => matches!(
+                    tokens.last().map(|prev| &prev.token),
+                    Some(Token::NL) | Some(Token::Indent)
+                ),
+                _ => false,
+            };
+            if !redundant {
+                tokens.push(lex);
+            }
+        }
 
         let mut iterator = LexIterator::new(tokens.iter().peekable());
         let statements = block::parse_statements(&mut iterator)?;
